@@ -5,7 +5,7 @@
 From Coq Require Import String List ZArith NArith Bool.
 Import ListNotations.
 Local Open Scope string_scope.
-From Selfies Require Import Base Generated Atoms Decoder Encoder Config History ConfigFacts PureFacts.
+From Selfies Require Import Base Generated Atoms Decoder Encoder Config History ConfigFacts PureFacts Footprint.
 
 (* decoder(x) after any history = the pure decoder on the current table *)
 Theorem C11_decode_pure : forall ops x compat attr,
@@ -38,6 +38,13 @@ Proof. exact nonstrict_encoder_ignores_table. Qed.
 Theorem C11_memo_coherent : forall ops, Coherent (w_lib (fst (run init_world ops))).
 Proof. intro ops. exact (proj2 (run_inv_coherent ops init_world inv_init coherent_init)). Qed.
 
+(* the memo layers and module-level mutable objects found in the CURRENT source are exactly the
+   ones the history model carries (a new cache or shared scratch object breaks this equality) *)
+Theorem C11_footprint_is_modelled :
+  shared_state = modelled_shared_state /\ shared_writers = modelled_writers.
+Proof. split; vm_compute; reflexivity. Qed.
+
+Print Assumptions C11_footprint_is_modelled.
 Print Assumptions C11_decode_pure.
 Print Assumptions C11_encode_pure.
 Print Assumptions C11_same_table_same_result.
